@@ -173,8 +173,8 @@ def renderView (s : State) : SExp :=
     match s.master[i]? with
     | some m => SExp.list [.atom (nameAt s.master i), .atom m.mesos.name, SExp.ofBool m.killed]
     | none => .list [])
-  let calls := (((s.started.map (·.1)).eraseDups).filter (fun k => decide (startedOf s k > 0))).map (fun k =>
-    SExp.list [SExp.ofNat k, SExp.ofNat (startedOf s k), SExp.ofNat (cancelledOf s k)])
+  let calls := ((viewOf s).calls.filter (fun c => decide (c.2.1 > 0))).map (fun c =>
+    SExp.list [SExp.ofNat c.1, SExp.ofNat c.2.1, SExp.ofNat c.2.2])
   .list [.list (sortRows envs), .list (sortRows roster), .list dets, .list (sortRows master), .list (sortRows calls)]
 
 /-! ### views of the observation (for the Spec predicates) -/
@@ -316,10 +316,16 @@ def threadOf (sc : Scenario) (ops : List OpIn) (ro : RoundObs) (idx : Nat) (op :
         ++ [liftStep (fun _ => .createSettle k (settleOracle sc k ro hang))] }
   | .ctl k ev =>
     -- concurrent START_ACTIVITY requests race for the run number (compare-and-swap): the loser's transition is cancelled
-    let nStarts := (ro.results.length > 1)
+    -- (seen afterwards: the environment is in ERROR while none of its tasks left CONFIGURED)
+    let conc := decide (ro.results.length > 1)
+    let untouched := match ro.snap with
+      | some (.list [_, .list ros, _, _, _]) =>
+        ros.all (fun
+          | .list [_, .atom o, _, .atom st] => o != toString k || st == "CONFIGURED"
+          | _ => true)
+      | _ => false
     { idx := idx, steps := [liftStep (fun s =>
-        let fails := trFails sc s k ev.name
-        .control k ev fails (decide (ev = .START) && nStarts && fails.isEmpty && obsRes == .okState "ERROR"))] }
+        .control k ev (trFails sc s k ev.name) (decide (ev = .START) && conc && untouched && obsRes == .okState "ERROR"))] }
   | .destroy k f a kp =>
     { idx := idx, steps := [liftStep (fun s => .destroy k f a kp
         { stopFails := trFails sc s k "STOP", resetFails := trFails sc s k "RESET", late1 := hang, late2 := hang,
